@@ -1,2 +1,2 @@
-(* C15 - entry point of the proofs (split over ProofsJson / ProofsGraph / ProofsChrome) *)
-Require Export UV.C15.ProofsJson.
+(* C15 - entry point of the proofs *)
+Require Export UV.C15.ProofsJson UV.C15.ProofsTree UV.C15.ProofsRun.
